@@ -30,6 +30,32 @@ def certFast {p d : Nat} (hd : 0 < d) (hp : 0 < p) (inf : Option (Fin p)) (A : M
   let vArr : Array GF256 := Array.ofFn (readV hd hp A x y)
   certGC A x y (fun r => uArr[r.val]!) (fun c => vArr[c.val]!)
 
+/-- parity matrix of a family as the driver's oracle uses it -/
+def famMatrix (fam : String) (d p : Nat) : Except String (Mat GF256 p d) :=
+  if hd : d = 0 then .error "InvShardNum" else
+  if hp : p = 0 then .error "noparity" else
+  if d + p > 256 then .error "MaxShardNum" else
+  have hd' : 0 < d := Nat.pos_of_ne_zero hd
+  match fam with
+  | "default" =>
+    if d ≤ 40 then
+      match buildMatrix pt d (d + p) (Nat.le_add_right d p) with
+      | none => .error "Singular"
+      | some G => .ok (parityPart p rfl G)
+    else .ok (lagrangeParity d p)
+  | "cauchy" => .ok (parityPart p rfl (buildMatrixCauchy pt d (d + p)))
+  | "par1" => .ok (parityPart p rfl (buildMatrixPAR1 pt d (d + p)))
+  | "xor" => if p ≠ 1 then .error "internal" else .ok (parityPart p rfl (buildXorMatrix d (d + p)))
+  | "jerasure" => .ok (parityPart p rfl (buildMatrixJerasure pt d (d + p) (by omega) hd'))
+  | _ =>
+    if fam.startsWith "custom:" then
+      match (fam.drop 7).toString.toNat? with
+      | some seed =>
+        let rows : Array ByteArray := Array.ofFn fun r : Fin p => fillBytes (UInt64.ofNat seed) (1000 + r.val) d
+        .ok (Mat.ofFn fun r c => gfOfByte (rows[r.val]!.get! c.val))
+      | none => .error "badfam"
+    else .error "badfam"
+
 structure GenOut where
   bytes : ByteArray
   cert : String
@@ -71,33 +97,10 @@ def genMatrix (fam : String) (d p : Nat) : Except String GenOut :=
     let c1 := certFast hd' hp' (some ⟨p - 1, by omega⟩) A
     let c2 := certFast hd' hp' none A
     .ok ⟨matBytes A, b2s (c1 || c2), "-"⟩
-  | _ => .error "badfam"
-
-/-- parity matrix of a family as the driver's oracle uses it -/
-def famMatrix (fam : String) (d p : Nat) : Except String (Mat GF256 p d) :=
-  if hd : d = 0 then .error "InvShardNum" else
-  if hp : p = 0 then .error "noparity" else
-  if d + p > 256 then .error "MaxShardNum" else
-  have hd' : 0 < d := Nat.pos_of_ne_zero hd
-  match fam with
-  | "default" =>
-    if d ≤ 40 then
-      match buildMatrix pt d (d + p) (Nat.le_add_right d p) with
-      | none => .error "Singular"
-      | some G => .ok (parityPart p rfl G)
-    else .ok (lagrangeParity d p)
-  | "cauchy" => .ok (parityPart p rfl (buildMatrixCauchy pt d (d + p)))
-  | "par1" => .ok (parityPart p rfl (buildMatrixPAR1 pt d (d + p)))
-  | "xor" => if p ≠ 1 then .error "internal" else .ok (parityPart p rfl (buildXorMatrix d (d + p)))
-  | "jerasure" => .ok (parityPart p rfl (buildMatrixJerasure pt d (d + p) (by omega) hd'))
   | _ =>
-    if fam.startsWith "custom:" then
-      match (fam.drop 7).toString.toNat? with
-      | some seed =>
-        let rows : Array ByteArray := Array.ofFn fun r : Fin p => fillBytes (UInt64.ofNat seed) (1000 + r.val) d
-        .ok (Mat.ofFn fun r c => gfOfByte (rows[r.val]!.get! c.val))
-      | none => .error "badfam"
-    else .error "badfam"
+    match famMatrix fam d p with
+    | .error e => .error e
+    | .ok A => .ok ⟨matBytes A, "-", "-"⟩
 
 def hashOpt (b : Option ByteArray) : String :=
   match b with
@@ -162,6 +165,10 @@ def opRec (args : List String) : String :=
         let all := data ++ par
         let E := parseList Es
         let present : Fin (d + p) → Bool := fun i => !E.contains i.val
+        -- argument check of the API layer (`checkShards`): no shard carries a length
+        if (List.finRange (d + p)).all (fun i => !present i) then
+          "err ShardNoData " ++ joinSp ((List.finRange (d + p)).map fun _ => "-") ++ " | l1=-"
+        else
         -- L0: shape of the outcome and original bytes
         let l0 : String :=
           match reconShape d p present mode with
